@@ -13,7 +13,7 @@ META = {
     "strict independent parser (vmc/ref/wire.py, run inside the target) accepts every frame: one frame per message written to the "
     "socket, header length == bytes that follow, the operation's command, the granted session handle (0 only before registration), "
     "zero status/options, 8-byte context, two-item common packet with exact item lengths, connection address item holding the "
-    "granted connection id, nothing trailing. states = frames inspected; distinct = distinct (scenario, frame index).",
+    "granted connection id (a SendUnitData naming another id while the session holds an open connection is flagged), nothing trailing. states = frames inspected; distinct = distinct (scenario, frame index).",
     "explanation": "strict frame monitor over an exhaustive payload-length / handle sweep and the scenario corpus",
     "assumptions": ["frames of fault-free runs only (C10 covers faults); the monitor records and the oracle reads the record after each scenario"],
 }
